@@ -6,6 +6,7 @@
 import FlacModel.Model.Decode
 import FlacModel.Proofs.Sync
 import FlacModel.Proofs.Local
+import FlacModel.Proofs.CrcSelf
 
 namespace Flac
 open Flac.Gen
@@ -613,71 +614,6 @@ theorem bytesToBits_bitsToBytes (x : Bits) (h : x.length % 8 = 0) : bytesToBits 
 theorem bitsToBytes_length (x : Bits) (h : x.length % 8 = 0) : 8 * (bitsToBytes x).length = x.length := by
   have := congrArg List.length (bytesToBits_bitsToBytes x h)
   rwa [bytesToBits_length] at this
-
-/-! ### checksums: a message followed by its own CRC has remainder 0 -/
-
-theorem crc8Table_zero : crc8Table.getD 0 0 = 0 := by decide
-theorem crc16Table_zero : crc16Table.getD 0 0 = 0 := by decide
-
-theorem xor_self' (x : Nat) : Nat.xor x x = 0 := Nat.xor_self x
-theorem zero_xor' (x : Nat) : Nat.xor 0 x = x := Nat.zero_xor x
-
-theorem crc8_self (bs : List Nat) : crc8 (bs ++ [crc8 bs]) = 0 := by
-  simp only [crc8, List.foldl_append, List.foldl_cons, List.foldl_nil, crc8Update, xor_self']
-  exact crc8Table_zero
-
-theorem crc16Table_lt : crc16Table.all (· < 65536) = true := by decide +kernel
-
-theorem crc16Table_getD_lt (i : Nat) : crc16Table.getD i 0 < 65536 := by
-  rw [List.getD_eq_getElem?_getD]
-  by_cases h : i < crc16Table.length
-  · rw [List.getElem?_eq_getElem h]
-    have := List.all_eq_true.mp crc16Table_lt _ (List.getElem_mem h)
-    simpa using this
-  · rw [List.getElem?_eq_none (by omega)]; decide
-
-theorem crc16Update_lt (c b : Nat) : crc16Update c b < 65536 := by
-  unfold crc16Update
-  exact Nat.xor_lt_two_pow (n := 16) (crc16Table_getD_lt _) (Nat.mod_lt _ (by decide))
-
-theorem crc16_lt (bs : List Nat) : crc16 bs < 65536 := by
-  have : ∀ init, init < 65536 → List.foldl crc16Update init bs < 65536 := by
-    induction bs with
-    | nil => intro i hi; exact hi
-    | cons x xs ih => intro i _; exact ih _ (crc16Update_lt _ _)
-  exact this 0 (by decide)
-
-theorem crc16_self (bs : List Nat) : crc16 (bs ++ [crc16 bs / 256, crc16 bs % 256]) = 0 := by
-  have hc := crc16_lt bs
-  simp only [crc16, List.foldl_append, List.foldl_cons, List.foldl_nil] at hc ⊢
-  generalize List.foldl crc16Update 0 bs = c at hc ⊢
-  have s1 : crc16Update c (c / 256) = c % 256 * 256 := by
-    unfold crc16Update
-    have : c / 2 ^ 8 % 256 = c / 256 := by omega
-    rw [this, xor_self', crc16Table_zero, zero_xor']; omega
-  rw [s1]
-  unfold crc16Update
-  have : c % 256 * 256 / 2 ^ 8 % 256 = c % 256 := by omega
-  rw [this, xor_self', crc16Table_zero, zero_xor']; omega
-
-
-theorem crc8Table_lt : crc8Table.all (· < 256) = true := by decide +kernel
-
-theorem crc8Update_lt (c b : Nat) : crc8Update c b < 256 := by
-  unfold crc8Update
-  rw [List.getD_eq_getElem?_getD]
-  by_cases h : Nat.xor c b < crc8Table.length
-  · rw [List.getElem?_eq_getElem h]
-    have := List.all_eq_true.mp crc8Table_lt _ (List.getElem_mem h)
-    simpa using this
-  · rw [List.getElem?_eq_none (by omega)]; decide
-
-theorem crc8_lt (bs : List Nat) : crc8 bs < 256 := by
-  have : ∀ init, init < 256 → List.foldl crc8Update init bs < 256 := by
-    induction bs with
-    | nil => intro i hi; exact hi
-    | cons x xs ih => intro i _; exact ih _ (crc8Update_lt _ _)
-  exact this 0 (by decide)
 
 theorem writeNumber_length (v n : Nat) (h : numWf v n) : (writeNumber v n).length = 8 * n := by
   rcases h with ⟨h1, _⟩ | ⟨h1, h2, _⟩
